@@ -26,7 +26,7 @@ from .C20 import deep_unwrap
 LEVEL = 'other'
 UNITS = ['src/containers/grid/RayTracing.cpp', 'src/containers/grid/GridIndexMapping.cpp']
 ENGINES = 'E-ORD + E-SIB + E-STATE + E-ALG over romea-facts'
-TECHNIQUE = 'a static axis needs a sentinel for every origin of the closed cell, crossing parameters compared by value, walks that stop on cell equality stepped on exact corner ties, table reads at origin index +-1 without a bound, parameter aliasing against stored points handed out by reference, fast paths in front of the stepping loop stepped on single-line witness rays, stored origin point by value on every path, index relations in the step witnesses, zero-distance exit recognised as exact; fields cast() reads must be assigned before any early return of setEndPoint(), parametric loop stop decided on border witness rays in exact arithmetic, sweep of every function read (and its in-repo callees) for frozen function-local statics, single precision inside double computations, lossy copy constructors, presence- or argument-keyed member caches, reference members bound to constructor arguments, loop accumulators that are members, members derived in the constructor and not refreshed by setters, results returned by reference to a member buffer, members filled from an argument under a condition that ignores it, hidden non-virtual base members, self-bound reference members, reductions that accumulate in float; early exit of setEndPoint classified (distance bound vs same-cell condition), the table rules of C13 with the sizes of this property; exhaustive evaluation of the extracted next() decision tree on all weak orders of its operands; must-pass-through and state-completeness on setEndPoint/cast; formula extraction for the initialisation'
+TECHNIQUE = 'cast() executed on concrete sequences for rays of 1, 2, 3 and 6 cells when the loop is not the enumerated one, a static axis needs a sentinel for every origin of the closed cell, crossing parameters compared by value, walks that stop on cell equality stepped on exact corner ties, table reads at origin index +-1 without a bound, parameter aliasing against stored points handed out by reference, fast paths in front of the stepping loop stepped on single-line witness rays, stored origin point by value on every path, index relations in the step witnesses, zero-distance exit recognised as exact; fields cast() reads must be assigned before any early return of setEndPoint(), parametric loop stop decided on border witness rays in exact arithmetic, sweep of every function read (and its in-repo callees) for frozen function-local statics, single precision inside double computations, lossy copy constructors, presence- or argument-keyed member caches, reference members bound to constructor arguments, loop accumulators that are members, members derived in the constructor and not refreshed by setters, results returned by reference to a member buffer, members filled from an argument under a condition that ignores it, hidden non-virtual base members, self-bound reference members, reductions that accumulate in float; early exit of setEndPoint classified (distance bound vs same-cell condition), the table rules of C13 with the sizes of this property; exhaustive evaluation of the extracted next() decision tree on all weak orders of its operands; must-pass-through and state-completeness on setEndPoint/cast; formula extraction for the initialisation'
 EXPLANATION = ('The four next() specialisations are read as decision trees and evaluated on every weak order of (tMax0,tMax1[,tMax2]); the cast()/setEndPoint() protocol is checked by '
                'path enumeration (all state next() touches is re-initialised for every axis on every path; setEndPoint dominates cast) and the initialisation formulas by exact algebra.')
 ASSUMPTIONS = ['the cell count is taken from the end/origin cell indexes (Y3); geometric exactness of the crossing parameters is floating-point and not decided']
